@@ -507,7 +507,8 @@ def get_unconnected_connectors(graph: nx.MultiDiGraph, start_nodes: Set[DSGNode]
             conn_deg = get_out_degree(graph, base_conn_node, edge_type=EdgeType.CONNECTS) \
                 if is_out_conn else get_in_degree(graph, base_conn_node, edge_type=EdgeType.CONNECTS)
             if not base_conn_node.is_valid(conn_deg) and \
-                    not has_conditional_existence(graph, start_nodes, base_conn_node):
+                    not has_conditional_existence(graph, start_nodes, base_conn_node) and \
+                    not _is_valid_without_conditional(graph, start_nodes, base_conn_node, conn_deg):
                 unconnected_connectors.append(connector_node)
                 if stop_at_one:
                     return unconnected_connectors
@@ -517,6 +518,19 @@ def get_unconnected_connectors(graph: nx.MultiDiGraph, start_nodes: Set[DSGNode]
         checked[base_conn_node] = False
 
     return unconnected_connectors
+
+
+def _is_valid_without_conditional(graph: nx.MultiDiGraph, start_nodes: Set[DSGNode], conn_node: ConnectorNode,
+                                   degree: int) -> bool:
+    """Whether a grouped connector accepts the degree if only its unconditionally-existing connectors are counted"""
+    if not isinstance(conn_node, ConnectorDegreeGroupingNode):
+        return False
+    connectors = [edge[0] for edge in iter_in_edges(graph, conn_node, edge_type=EdgeType.DERIVES)
+                  if not has_conditional_existence(graph, start_nodes, edge[0])]
+    deg_list, deg_min, deg_max = conn_node.get_combined_deg(connectors)
+    if deg_list is not None:
+        return degree in deg_list
+    return deg_min <= degree <= deg_max
 
 
 def traverse_until_choice_nodes(graph: nx.MultiDiGraph, start_nodes: Set[DSGNode], traversed: set = None) \
